@@ -6,7 +6,6 @@ Require Import ExcerptModel Model Spec Refine Entry.
 
 Section P.
 Variable g funs : list (list nat * expr).
-Variable named : bool.
 Variable ignored : option nat.
 Variable t : list nat.
 Variable rx : nat -> nat -> option nat.
@@ -21,7 +20,7 @@ Definition expected_outcome (v : value) (q : nat) (full : bool) : outcome :=
 Theorem parse_three_outcomes : forall fuel entry b p full,
   nth_error g entry = Some ([], b) ->
   match peg g ignored t rx fuel [] b p,
-        parse_model true g funs named ignored t rx fuel entry p full with
+        parse_model true g funs ignored t rx fuel entry p full with
   | Spec.Fuel, Entry.Fuel => True
   | Raise, _ => True
   | Match v q, o => o = expected_outcome v q full
@@ -30,11 +29,11 @@ Theorem parse_three_outcomes : forall fuel entry b p full,
   end.
 Proof.
   intros fuel entry b p full Hb. unfold parse_model. rewrite Hb.
-  pose proof (exec_refines_peg g funs named ignored t rx Hg Hign fuel b [] [] (fresh p)
+  pose proof (exec_refines_peg g funs ignored t rx Hg Hign fuel b [] [] (fresh p)
                 (Hg entry b Hb) (scope_nil) (sub_nil _)) as H.
   unfold agree in H. cbn [pos fresh] in H.
   destruct (peg g ignored t rx fuel [] b p) as [| | |v q],
-           (exec true g funs named ignored t rx fuel b (fresh p)) as [s'| |]; try contradiction; auto.
+           (exec true g funs ignored t rx fuel b (fresh p)) as [s'| |]; try contradiction; auto.
   - destruct H as (A & _). rewrite A. exact I.
   - destruct H as (A & B & C & D). rewrite A. subst. reflexivity.
 Qed.
